@@ -25,7 +25,7 @@ func init() {
 			"(R-KIND) every writer of node.flag / node.value keeps the invariant 'kind variable/operator/fastOperator ⇒ value is a string, cond ⇒ keyword, event ⇒ LoopEventData; a fast operator has exactly two leaf children; or-ing flag bits never touches the kind bits'; (R-KINDSWITCH) every switch over a node kind in Eval, TryEval, calAndSetNodes, calAndSetStackSize covers all kinds that can reach it; (R-BITS, R-PAIR, R-PAIRBOOL, R-SCJUMP) flag bit groups are disjoint and the four places that pair and/or with a polarity agree, for every alias. " +
 			"(R-STEPRES) per arm of the main loop the pushed value is exactly the node literal / result #0 of the fetch of that very node / result #0 of the node's own operator applied in that arm, cond and event arms push nothing, the value lands in os[osTop+1] and osTop advances by one, non-error returns yield the pushed value or os[0]; (R-STEPARGS) the operator arm pops exactly childCnt and hands the operator either the two-slot buffer filled from os[osTop-childCnt+1], os[osTop-childCnt+2] (only under childCnt == 2) or a fresh childCnt-long copy of os[osTop-childCnt+1:]. " +
 			"(R-STACKREC) calAndSetStackSize: every arm builds on the same predecessor (i-1, or the `if` node when node i-1 is `fi`) with the evaluator's per-kind stack effect as delta; (R-SCFLAGS) the stores of calAndSetShortCircuit are gated only by the parent and the position, never by the node's own kind or value; (R-SCCLIMB) an ancestor's target is taken over only under (ancestor.flag & flag) == flag, loops run in the direction that makes read targets final; (R-FASTLAYOUT) every site agrees that a fast operator is followed by two inlined operands; (R-KWTYPE) marker comparisons use the stored dynamic type. " +
-			"(R-BOOLARITY) an and/or node is never built with fewer than two operands (D14). NOT decided: the contents of scIdx for every tree shape (how far the climbing loop goes), hence value equality with the reference semantics for all programs; operator algebra is C17-C19.",
+			"(R-BOOLARITY) an and/or node is never built with fewer than two operands (D14). NOT decided: the contents of scIdx for every tree shape (how far the climbing loop goes), hence value equality with the reference semantics for all programs; operator algebra is C17-C19. Round 2: (R-NODEFRESH) every store into astNode.node stores a record allocated right there, stored once and kept nowhere else — the compile-time tables are written into the node records, one per position; (R-SCMUST) a step result is pushed only if it is not a bool or its deciding flag is not set — a deciding operand always takes the short-circuit jump; R-STACKMAX, R-STACKCLASS, R-ORDER shared from C09.",
 		Run:       runC01,
 		Witnesses: c01Witnesses,
 	})
